@@ -349,3 +349,148 @@ Proof.
   - unfold directive in H. inversion H; subst. apply force_unprotected. simpl; auto.
   - unfold directive in H. destruct a; inversion H; subst; apply force_unprotected; simpl; auto.
 Qed.
+
+(* ================================================================== *)
+(* from the program text to the table of derived views *)
+
+Definition cls_of (eo : bool) : N := if eo then exc_classifier else view_classifier.
+
+(* d was derived, under state st, from a view action of the list, as its normal (eo = false) or exception variant *)
+Definition derived_from (acts : list action) (st : regstate) (rt : N) (d : dview) : Prop :=
+  exists eo o b, In (AView o b) acts /\ derive1 st (cls_of eo) eo o b = Some d /\ rt = rtag (o_tag o) eo.
+
+Lemma derive1_tag st cls eo o b d : derive1 st cls eo o b = Some d -> r_tag (d_reg d) = rtag (o_tag o) eo.
+Proof. unfold derive1. destruct (make pred_names (o_kw o)); [|discriminate]. intros H; inversion H; reflexivity. Qed.
+
+Lemma derive1_perm st cls eo o b d : derive1 st cls eo o b = Some d -> d_perm d = secured_permission st eo (o_perm o).
+Proof. unfold derive1. destruct (make pred_names (o_kw o)); [|discriminate]. intros H; inversion H; reflexivity. Qed.
+
+Lemma derive1_body st cls eo o b d : derive1 st cls eo o b = Some d -> d_body d = b.
+Proof. unfold derive1. destruct (make pred_names (o_kw o)); [|discriminate]. intros H; inversion H; reflexivity. Qed.
+
+Lemma exec_view_D' s o b rt d :
+  In (rt, d) (cs_D (exec_view s o b)) ->
+  In (rt, d) (cs_D s) \/ exists eo, derive1 (cs_rs s) (cls_of eo) eo o b = Some d /\ rt = rtag (o_tag o) eo.
+Proof.
+  unfold exec_view.
+  destruct (negb (o_exc_only o)), (o_isexc o);
+    destruct (derive1 (cs_rs s) view_classifier false o b) as [d1|] eqn:E1,
+             (derive1 (cs_rs s) exc_classifier true o b) as [d2|] eqn:E2; simpl; intros H;
+    repeat (destruct H as [H|H];
+            [inversion H; subst; right;
+             first [exists false; split; [exact E1|apply (derive1_tag _ _ _ _ _ _ E1)]
+                   |exists true; split; [exact E2|apply (derive1_tag _ _ _ _ _ _ E2)]]|]); auto.
+Qed.
+
+Lemma sorted_fold' l :
+  StronglySorted (fun a b => action_leb a b = true) l -> forall s rt d,
+  In (rt, d) (cs_D (fold_left exec_action l s)) ->
+  In (rt, d) (cs_D s) \/ derived_from l (cs_rs (fold_left exec_action l s)) rt d.
+Proof.
+  induction 1 as [|a l Hs IH Ha]; intros s rt d Hin; simpl in *; [left; exact Hin|].
+  destruct (IH _ _ _ Hin) as [H|(eo & o & b & H1 & H2 & H3)].
+  - destruct a as [|p|o b]; simpl in H; [left; exact H|left; exact H|].
+    apply exec_view_D' in H. destruct H as [H|(eo & H1 & H2)]; [left; exact H|right].
+    exists eo, o, b. split; [left; reflexivity|]. split; [|exact H2].
+    rewrite (views_only_rs l) by (eapply later_are_views; exact Ha).
+    simpl. rewrite exec_view_rs. exact H1.
+  - right. exists eo, o, b. split; [right; exact H1|]. split; assumption.
+Qed.
+
+Lemma in_somes5_map {A B} (f : A -> option B) l y : In y (somes5 (map f l)) -> exists x, In x l /\ f x = Some y.
+Proof.
+  induction l as [|x r IH]; simpl; [intros []|].
+  destruct (f x) as [z|] eqn:E.
+  - intros [<-|H]; [exists x; auto|]. destruct (IH H) as (x' & H1 & H2). exists x'. auto.
+  - intros H. destruct (IH H) as (x' & H1 & H2). exists x'. auto.
+Qed.
+
+(* every entry of the table after a commit is an old entry, or comes from a statement of the commit, derived
+   under the commit's final state; its closed-over permission is the table value for that statement *)
+Lemma commit_table s batch rt d :
+  In (rt, d) (cs_D (commit s batch)) ->
+  In (rt, d) (cs_D s) \/
+  exists st eo o b, In st batch /\ directive (cs_rs s) st = Some (AView o b) /\ rt = rtag (o_tag o) eo /\
+                    d_perm d = secured_permission (cs_rs (commit s batch)) eo (o_perm o) /\ d_body d = b.
+Proof.
+  intros Hin. unfold commit, batch_actions in *.
+  apply sorted_fold' in Hin; [|apply isort_sorted; [exact action_leb_total|exact action_leb_trans]].
+  destruct Hin as [H|(eo & o & b & H1 & H2 & H3)]; [left; exact H|right].
+  apply (Permutation_in _ (isort_perm action_leb _)) in H1.
+  apply in_somes5_map in H1. destruct H1 as (st & Hs & Hd).
+  exists st, eo, o, b. repeat split; try assumption.
+  - eapply derive1_perm; exact H2.
+  - eapply derive1_body; exact H2.
+Qed.
+
+(* the declarative reading of that value: with a policy in force, exactly the property's effective permission *)
+Lemma secured_permission_declarative dp eo perm :
+  secured_permission (mkRS true dp) eo perm =
+  match perm with
+  | Some p => strip_npr (Some p)
+  | None => if eo then None else strip_npr dp
+  end.
+Proof.
+  unfold secured_permission, strip_npr. cbn [rs_policy rs_defperm negb orb].
+  destruct perm as [p|]; cbn [is_none andb negb].
+  - rewrite andb_false_r. destruct (is_npr p); reflexivity.
+  - rewrite andb_true_r. destruct eo; cbn [negb]; [reflexivity|].
+    destruct dp as [q|]; [destruct (is_npr q)|]; reflexivity.
+Qed.
+
+(* one commit, a policy statement anywhere in it, add_view(permission=...) anywhere in it: the registered view
+   closed over the property's effective permission (explicit, else the declared default unless exception view;
+   marker = none) *)
+Lemma single_commit_effective s batch rt d dp :
+  rs_policy (cs_rs (commit s batch)) = true -> rs_defperm (cs_rs (commit s batch)) = dp ->
+  In (rt, d) (cs_D (commit s batch)) ->
+  In (rt, d) (cs_D s) \/
+  exists st eo o b, In st batch /\ directive (cs_rs s) st = Some (AView o b) /\ rt = rtag (o_tag o) eo /\
+    d_perm d = match o_perm o with
+               | Some p => strip_npr (Some p)
+               | None => if eo then None else strip_npr dp
+               end.
+Proof.
+  intros Hp Hd Hin. destruct (commit_table _ _ _ _ Hin) as [H|(st & eo & o & b & H1 & H2 & H3 & H4 & _)]; [left; exact H|right].
+  exists st, eo, o, b. repeat split; try assumption.
+  rewrite H4. destruct (cs_rs (commit s batch)) as [pol dq]. simpl in Hp, Hd. subst pol dq.
+  apply secured_permission_declarative.
+Qed.
+
+Lemma no_policy_nothing_protected s batch rt d :
+  rs_policy (cs_rs (commit s batch)) = false ->
+  In (rt, d) (cs_D (commit s batch)) -> In (rt, d) (cs_D s) \/ d_perm d = None.
+Proof.
+  intros Hp Hin. destruct (commit_table _ _ _ _ Hin) as [H|(st & eo & o & b & _ & _ & _ & H4 & _)]; [left; exact H|right].
+  rewrite H4. apply secured_no_policy. exact Hp.
+Qed.
+
+Lemma assocN_In {B} (k : N) (l : list (N * B)) v : assocN k l = Some v -> In (k, v) l.
+Proof.
+  induction l as [|[k' v'] r IH]; simpl; [discriminate|].
+  destruct (N.eqb k k') eqn:E; [apply N.eqb_eq in E; intros H; inversion H; subst; left; reflexivity|right; auto].
+Qed.
+
+(* mediation at program level: one commit on top of the constructor's state; the tag of the event names the
+   statement and the variant; the permission is the property's effective permission of that statement *)
+Lemma mediation_program irq ier iw batch tb q i e rt c d :
+  let s0 := init_state irq ier iw in
+  let s := commit s0 batch in
+  existsb policy_kept batch = true ->
+  nth_error (fst (run_request s tb q)) i = Some e -> (e = Body rt c \/ e = Deco rt c) ->
+  assocN rt (cs_D s) = Some d ->
+  In (rt, d) (cs_D s0) \/
+  exists st eo o b, In st batch /\ directive (cs_rs s0) st = Some (AView o b) /\ rt = rtag (o_tag o) eo /\
+    forall p, match o_perm o with
+              | Some p' => strip_npr (Some p')
+              | None => if eo then None else strip_npr (rs_defperm (cs_rs s))
+              end = Some p ->
+              exists j, j < i /\ nth_error (fst (run_request s tb q)) j = Some (Permits p c true).
+Proof.
+  intros s0 s Hpol Hn He Hd.
+  assert (Hp : rs_policy (cs_rs s) = true) by (unfold s; rewrite commit_policy, Hpol; apply orb_true_r).
+  destruct (single_commit_effective s0 batch rt d _ Hp eq_refl (assocN_In _ _ _ Hd))
+    as [H|(st & eo & o & b & H1 & H2 & H3 & H4)]; [left; exact H|right].
+  exists st, eo, o, b. repeat split; try assumption.
+  intros p Hperm. unfold run_request in *. eapply mediation; eauto. rewrite H4. exact Hperm.
+Qed.
